@@ -321,7 +321,38 @@ def corr_integral_tags(chk, d, entries):
 # ------------------------------------------------------------------------------ (c) stability
 WORKER_ENTRIES_FORMS = ["mass_tri_p1", "laplace_coef_tri_p2", "stokes_mixed", "subdomains", "int_facet_tri",
                         "prism", "p2geom_tri", "math_tri"]
-WORKER_ENTRIES_EXPRS = ["expr_grad_tri", "expr_rank1", "expr_facet"]
+WORKER_ENTRIES_EXPRS = ["expr_grad_tri", "expr_rank1", "expr_facet", "c13_expr_parent_facet_mesh", "c13_expr_two_meshes_same_cel",
+                        "c13_expr_three_meshes"]
+
+
+def local_entries():
+    """Expressions over SEVERAL meshes (the renumbering of domains in compute_signature): only their names are
+    computed here, so they are not part of the shared numeric corpus."""
+    import basix.ufl
+    import numpy as np
+    import ufl
+
+    from .. import corpus
+
+    def parent_facet():
+        mesh = ufl.Mesh(basix.ufl.element("Lagrange", "triangle", 1, shape=(2,)))
+        fmesh = ufl.Mesh(basix.ufl.element("Lagrange", "interval", 1, shape=(2,)))
+        c = ufl.Coefficient(ufl.FunctionSpace(fmesh, basix.ufl.element("P", "interval", 1)))
+        return [(c * ufl.FacetNormal(mesh), np.array([[0.3], [0.5], [0.8]]))]
+
+    def same_cel(n):
+        def b():
+            cel = basix.ufl.element("Lagrange", "triangle", 1, shape=(2,))
+            ms = [ufl.Mesh(cel) for _ in range(n)]
+            fs = [ufl.Coefficient(ufl.FunctionSpace(m, basix.ufl.element("P", "triangle", 1 + k % 2))) for k, m in enumerate(ms)]
+            e = fs[0]
+            for f in fs[1:]:
+                e = e * f
+            return [(e + ufl.SpatialCoordinate(ms[-1])[0], np.array([[0.25, 0.25], [0.1, 0.6]]))]
+        return b
+    return [corpus.Entry("c13_expr_parent_facet_mesh", parent_facet, kind="expression"),
+            corpus.Entry("c13_expr_two_meshes_same_cel", same_cel(2), kind="expression"),
+            corpus.Entry("c13_expr_three_meshes", same_cel(3), kind="expression")]
 
 
 def worker(spec_json):
@@ -340,7 +371,7 @@ def worker(spec_json):
         V = ufl.FunctionSpace(m, basix.ufl.element("P", cell, 1 + i % 2))
         f, c = ufl.Coefficient(V), ufl.Constant(m)
         (c * f * ufl.TestFunction(V) * ufl.dx).signature()
-    byname = {e.name: e for e in corpus.fixed() + corpus.expressions()}
+    byname = {e.name: e for e in corpus.fixed() + corpus.expressions() + local_entries()}
     names = [n for n in spec["entries"] if n in byname]
     if spec.get("order") == "rev":
         names = names[::-1]
@@ -383,7 +414,7 @@ def _run_worker(spec, hashseed):
 def stability(chk, thorough):
     from .. import corpus as _corpus
 
-    have = {e.name for e in _corpus.fixed() + _corpus.expressions()}
+    have = {e.name for e in _corpus.fixed() + _corpus.expressions() + local_entries()}
     entries = [n for n in WORKER_ENTRIES_FORMS + WORKER_ENTRIES_EXPRS if n in have]
     if len(entries) < 4:
         raise RuntimeError("corpus entries used by the C13 stability search disappeared")
@@ -394,6 +425,10 @@ def stability(chk, thorough):
         ("reverse-order", dict(base, order="rev"), 2),
         ("counter-offset", dict(base, warmup=7), 3),
         ("other-request-first+offset+rev", dict(base, warmup=3, order="rev", other_first=True), 4),
+        # UFL ids crossing a power of ten (repr-sorted ids flip there) and more hash seeds (set orders)
+        ("counter-offset-9", dict(base, warmup=9), 5),
+        ("counter-offset-99", dict(base, warmup=99), 6),
+        ("hashseed7", dict(base), 7), ("hashseed8", dict(base), 8), ("hashseed9", dict(base, warmup=8), 9),
     ]
     if thorough:
         variants += [(f"hashseed{s}", dict(base, warmup=s % 5, order="rev" if s % 2 else "fwd"), s) for s in range(5, 21)]
@@ -414,7 +449,7 @@ def stability(chk, thorough):
     # same process, same request built twice (distinct Python objects, later counters)
     from .. import corpus
 
-    byname = {e.name: e for e in corpus.fixed() + corpus.expressions()}
+    byname = {e.name: e for e in corpus.fixed() + corpus.expressions() + local_entries()}
     with X.hermetic_options():
         for n in entries:
             e = byname[n]
